@@ -1109,3 +1109,113 @@ pub fn check(id: &str, tier: &str) -> i32 {
     }
     if violations > 0 { 1 } else { 0 }
 }
+
+// ---------------------------------------------------------------------------------------------
+// emulator fidelity: the same emitted text run natively (GNU as after a syntax-only
+// transliteration) must give the same stdout and exit status as the emulator
+
+pub fn nasm_to_gas(text: &str) -> String {
+    let mut out = String::from(".intel_syntax noprefix\n");
+    for l in text.lines() {
+        let t = l.trim();
+        if t.is_empty() {
+            out.push('\n');
+        } else if let Some(c) = t.strip_prefix(';') {
+            out.push_str(&format!("    #{c}\n"));
+        } else if t.starts_with("section .note.GNU-stack") {
+            out.push_str(".section .note.GNU-stack,\"\",@progbits\n");
+        } else if t == "section .text" {
+            out.push_str(".text\n");
+        } else if t.starts_with("extern ") {
+        } else if let Some(g) = t.strip_prefix("global ") {
+            out.push_str(&format!(".globl {g}\n"));
+        } else if let Some(l) = t.strip_prefix("jmp near ") {
+            out.push_str(&format!("    .byte 0xe9\n    .long {l} - . - 4\n"));
+        } else {
+            let x = t.replace("qword [", "qword ptr [").replace("[rel ", "[rip + ");
+            out.push_str(&format!("    {x}\n"));
+        }
+    }
+    out
+}
+
+pub fn selftest(n: u64) -> i32 {
+    let seed: u64 = std::env::var("VERIF_SEED").ok().and_then(|s| s.parse().ok()).unwrap_or(1);
+    let rt = match CRuntime::build("selftest") {
+        Ok(r) => r,
+        Err(e) => {
+            println!("HARNESS-ERROR: {e}");
+            return 2;
+        }
+    };
+    let dir = format!("{VERIF_DIR}/work/native-{}", std::process::id());
+    let _ = std::fs::create_dir_all(&dir);
+    let old = std::env::current_dir().unwrap();
+    std::env::set_current_dir(&dir).unwrap();
+    std::fs::write("io.c", driver::IO_RUNTIME).unwrap();
+    let (mut agree, mut disagree, mut skipped, mut instr) = (0u64, 0u64, 0u64, 0u64);
+    let corpus = corpus_with_args();
+    for i in 0..n {
+        let mut rng = Rng::keyed(seed, i, "selftest");
+        let (src, argv): (String, Vec<String>) = if (i as usize) < corpus.len() {
+            (corpus[i as usize].1.clone(), corpus[i as usize].2.clone())
+        } else {
+            let cfg = FunCfg::swarm(&mut rng, 60);
+            let p = fungen::generate(&mut rng, &cfg);
+            (p.unique.clone(), p.args.iter().map(|a| a.to_string()).collect())
+        };
+        let args: Vec<i64> = argv.iter().map(|a| a.parse().unwrap_or(0)).collect();
+        let Ok(f) = front(&src, &args, 77, 300_000, false) else {
+            skipped += 1;
+            continue;
+        };
+        // only runs on which the program terminates normally make sense natively
+        if !matches!(f.reference.end, FunEnd::Done(_)) || f.n_args > 5 || f.n_args != args.len() {
+            skipped += 1;
+            continue;
+        }
+        let Ok(text) = f.text else {
+            skipped += 1;
+            continue;
+        };
+        let plan = EnvPlan::benign();
+        let Ok(prog) = x86::load(&text, plan.code_base) else {
+            skipped += 1;
+            continue;
+        };
+        let opts = ExecOpts { step_budget: 4000 * f.reference.steps + 100_000, check_heap: false, record_snaps: 0, print_hook: None };
+        let emu = run_exe(&rt, Some(prog), f.n_args, &argv, &plan, &opts);
+        if emu.outcome.as_ref().map(|o| o.viol.is_some()).unwrap_or(true) {
+            skipped += 1;
+            continue;
+        }
+        instr += emu.outcome.as_ref().map(|o| o.steps).unwrap_or(0);
+        std::fs::write("p.s", nasm_to_gas(&text)).unwrap();
+        let drv = driver::generate_c_driver(f.n_args, None);
+        let ok = Command::new("gcc").args(["-no-pie", "-w", "-o", "p.exe", drv.to_str().unwrap(), "io.c", "p.s"]).stderr(Stdio::null()).status().map(|s| s.success()).unwrap_or(false);
+        if !ok {
+            println!("selftest #{i}: GNU as / gcc rejected the transliterated text");
+            disagree += 1;
+            continue;
+        }
+        let o = Command::new("./p.exe").args(&argv).output().unwrap();
+        let status = o.status.code().unwrap_or(-1);
+        if o.stdout != emu.stdout || status != emu.status {
+            disagree += 1;
+            println!(
+                "selftest #{i}: native stdout {:?} status {} vs emulator stdout {:?} status {}",
+                String::from_utf8_lossy(&o.stdout).chars().take(80).collect::<String>(),
+                status,
+                String::from_utf8_lossy(&emu.stdout).chars().take(80).collect::<String>(),
+                emu.status
+            );
+            let _ = std::fs::write(format!("{VERIF_DIR}/work/selftest-{i}.sc"), &src);
+        } else {
+            agree += 1;
+        }
+    }
+    std::env::set_current_dir(old).unwrap();
+    let _ = std::fs::remove_dir_all(&dir);
+    println!("x86-64 emulator vs native CPU: {agree} programs agree, {disagree} disagree, {skipped} skipped, {instr} emulated instructions");
+    if disagree > 0 { 2 } else { 0 }
+}
